@@ -1489,3 +1489,108 @@ def rule_accessnode(P) -> RuleResult:
         else:
             res.ok({'handler': fs.fq, 'node': 'EvalGetItem(operand, key)'})
     return res
+
+
+# ----------------------------------------------------------------------
+# R-NODEBUILD (C01, C04): the leaf and connective handlers build the node the syntax asks for
+
+def rule_nodebuild(P) -> RuleResult:
+    """The compiler handlers that only build a node, on terms: AND gives EvalAnd and OR gives EvalOr over every compiled argument in
+    source order (R-3VL decides what those nodes then compute); a literal gives EvalConstant(the literal), its datatype taken from the
+    value; `*` gives the typed Asterisk constant; a column name gives the table's column of exactly that name or is refused."""
+    res = RuleResult('R-NODEBUILD')
+    res.exhaustive = True
+    NODE = Sym('AST_NODE')
+    ARGS = [Sym('ARG1'), Sym('ARG2'), Sym('ARG3')]
+
+    def run(meth, on_attr, extra=None):
+        fi = _method(P, meth)
+
+        def on_call(fn, fv, rc, a, k, ex, nd):
+            f = str(fn).split('.')[-1]
+            if f == '_compile':
+                return T('new', ('COMPILED', tuple(a)))
+            if f.startswith('Eval'):
+                return T('new', (f, tuple(a), tuple(sorted(dict(k).items()))))
+            if extra:
+                return extra(fn, fv, rc, a, k, ex, nd)
+            return NotImplemented
+        return fi, Engine(P, on_attr=on_attr, on_call=on_call).paths(fi, {'self': SELF, fi.params[1]: NODE})
+
+    for meth, cls, word in (('_and', 'EvalAnd', 'AND'), ('_or', 'EvalOr', 'OR')):
+        def on_attr(base, attr, ex):
+            if base == NODE and attr == 'args':
+                return SList(list(ARGS))
+            return NotImplemented
+        fi, paths = run(meth, on_attr)
+        for p in paths:
+            v = p.value
+            shape = p.outcome == 'return' and not p.decisions and isinstance(v, T) and v.op == 'new' and v.args[0] == cls and not v.args[2] \
+                and len(v.args[1]) == 1 and isinstance(v.args[1][0], SList) and not v.args[1][0].tail
+            items = list(v.args[1][0].items) if shape else None
+            want = [T('new', ('COMPILED', (a,))) for a in ARGS]
+            if shape and word == 'OR' and items and all(isinstance(i, T) and i.op == 'sorted-item' for i in items) and \
+                    [i.args[0] for i in items] == list(range(len(items))):
+                # OR is TRUE if any operand is true, else NULL if any is NULL: a function of the set of operand values, whatever their order
+                items = list(items[0].args[1])
+            good = shape and items == want
+            if good:
+                res.ok({'handler': fi.fq, 'node': f'{cls}([compiled argument, ... in source order])', 'arguments': len(ARGS)})
+            else:
+                res.fail(fi.fq, f'nodebuild:{word.lower()}', f'`a {word} b {word} c` must compile to {cls} over the three compiled arguments in '
+                         f'source order; it gives `{show(v)[:140] if p.outcome == "return" else p.outcome}`', loc(fi))
+
+    def on_attr_c(base, attr, ex):
+        if base == NODE and attr == 'value':
+            return Sym('LITERAL')
+        return NotImplemented
+    fi, paths = run('_constant', on_attr_c)
+    for p in paths:
+        if p.outcome == 'return' and not p.decisions and p.value == T('new', ('EvalConstant', (Sym('LITERAL'),), ())):
+            res.ok({'handler': fi.fq, 'node': 'EvalConstant(the literal): datatype taken from the value'})
+        else:
+            res.fail(fi.fq, 'nodebuild:constant', f'a literal must compile to EvalConstant(the literal) and nothing else; it gives '
+                     f'`{show(p.value)[:140] if p.outcome == "return" else p.outcome}`', loc(fi))
+
+    fi, paths = run('_asterisk', lambda b, a, ex: NotImplemented)
+    for p in paths:
+        v = p.value
+        good = False
+        if p.outcome == 'return' and not p.decisions and isinstance(v, T) and v.op == 'new' and v.args[0] == 'EvalConstant':
+            dt = {**dict(v.args[2]), **({'dtype': v.args[1][1]} if len(v.args[1]) > 1 else {})}.get('dtype')
+            good = v.args[1][:1] == (None,) and gname(dt).split('.')[-1] == 'Asterisk'
+        if good:
+            res.ok({'handler': fi.fq, 'node': 'EvalConstant(NULL, dtype=Asterisk)'})
+        else:
+            res.fail(fi.fq, 'nodebuild:asterisk', f'`*` as an argument must compile to the NULL constant of datatype Asterisk (what count(*) '
+                     f'and the function lookup dispatch on); it gives `{show(v)[:140] if p.outcome == "return" else p.outcome}`', loc(fi))
+
+    COLS = _attr(_attr(SELF, 'table'), 'columns')
+
+    def on_attr_col(base, attr, ex):
+        if base == NODE and attr == 'name':
+            return Sym('NAME')
+        return NotImplemented
+    for present in (True, False):
+        asked = []
+
+        def extra(fn, fv, rc, a, k, ex, nd):
+            full = str(fn)
+            if rc == COLS and full.split('.')[-1] == 'get':
+                asked.append(tuple(a))
+                return Sym('THE_COLUMN') if present and a[:1] == (Sym('NAME'),) and (len(a) < 2 or True) else (a[1] if len(a) > 1 else None)
+            return NotImplemented
+        fi, paths = run('_column', on_attr_col, extra)
+        for p in paths:
+            if present:
+                good = p.outcome == 'return' and p.value == Sym('THE_COLUMN')
+                want = 'the column of that name'
+            else:
+                good = p.outcome == 'raise' and p.value[0] == 'CompilationError'
+                want = 'CompilationError'
+            if good and asked and all(a[:1] == (Sym('NAME'),) for a in asked):
+                res.ok({'handler': fi.fq, 'column_exists': present, 'gives': want})
+            else:
+                res.fail(fi.fq, 'nodebuild:column', f'a column name that {"exists" if present else "does not exist"} in the table must give {want}; '
+                         f'it gives `{show(p.value)[:100]}` ({p.outcome}) after looking up {[show(a) for a in asked]}', loc(fi))
+    return res
